@@ -23,6 +23,7 @@ def to_interrupts(rng, prog, max_n=3):
         n["defaults"] = []
         n["fn"] = "term"
         n["pause_at"] = [1] if rng.random() < 0.8 else []
+        n["is_async"] = rng.random() < 0.5          # the handler is an `async def` (it pauses by returning None all the same)
         if len(n["inputs"]) >= 2 and rng.random() < 0.4:
             # the interrupt's first two inputs were exchanged by ONE with_inputs() call: the value shown to the human is
             # that of the first CURRENT input name
@@ -137,9 +138,12 @@ def cached_interrupt_history(ctx):
         ([], [X, X + [["decision", "HUMAN"]], X]),
         ([], [X + [["decision", "HUMAN"]], X, X]),
     ]
-    for pause_at, history in scenarios:
-        prog = IR.prog("top", [IR.func("make", ["x"], ["draft"]), IR.interrupt("approval", ["draft"], ["decision"], pause_at=pause_at, cache=True),
-                               IR.func("finalize", ["decision"], ["result"])])
+    scenarios = [(pa, h, emit) for pa, h in scenarios for emit in (False, True)]
+    for pause_at, history, emit in scenarios:
+        # emit: the cached interrupt also emits an ordering signal (an output that is never among the supplied values)
+        prog = IR.prog("top", [IR.func("make", ["x"], ["draft"]),
+                               IR.interrupt("approval", ["draft"], ["decision"] + (["approved_sig"] if emit else []), ndata=1, pause_at=pause_at, cache=True),
+                               IR.func("finalize", ["decision"], ["result"], wait_for=["approved_sig"] if emit else [])])
         outs = {}
         for label, cache in (("cached", InMemoryCache()), ("uncached", None)):
             rt = build.Runtime(prog)
